@@ -53,7 +53,24 @@ func variablesForArgMode(atom ast.Atom, mode ast.Mode, mask ast.ArgMode) []ast.V
 // - is unified (via an equality) with a constant or bound variable.
 // Also checks that every function application expression has the right number of arguments.
 func (a *Analyzer) CheckRule(clause ast.Clause) error {
+	original := clause
 	clause = clause.ReplaceWildcards()
+	// Wildcards inside a negated atom are existential ("no fact matches, whatever
+	// is in this column"); the fresh variables they become need no binding.
+	negWildcards := make(map[ast.Variable]bool)
+	for i, premise := range original.Premises {
+		if neg, ok := premise.(ast.NegAtom); ok {
+			if replaced, ok := clause.Premises[i].(ast.NegAtom); ok {
+				for j, arg := range neg.Atom.Args {
+					if v, ok := arg.(ast.Variable); ok && v.Symbol == "_" {
+						if fresh, ok := replaced.Atom.Args[j].(ast.Variable); ok {
+							negWildcards[fresh] = true
+						}
+					}
+				}
+			}
+		}
+	}
 	var (
 		boundVars = make(map[ast.Variable]bool)
 		headVars  = make(map[ast.Variable]bool)
@@ -224,6 +241,9 @@ func (a *Analyzer) CheckRule(clause ast.Clause) error {
 
 	// Every variable encountered in the head or body has to be bound somewhere.
 	for v := range seenVars {
+		if negWildcards[v] {
+			continue
+		}
 		if headVars[v] && transformVarDefs[v] {
 			// Head variable is defined in transform.
 			continue
